@@ -834,6 +834,9 @@ class PerStream(runner.Stream):
 
 class Spec(runner.Spec):
     prop = "C10"
+    # Props/Glue.lean: the byte-level code (on the L0 BitBuffer/Bits mirrors of C11) refines the bit-list
+    # functions these theorems are about
+    extra_prop_files = ["Glue"]
     streams = [PerStream()]
     assumptions = [
         "dev profile (overflow checks, debug assertions); the release profile is not modelled",
